@@ -64,7 +64,16 @@ impl Printer {
                 }
             }
         }
-        out.flush().unwrap();
+        if let Err(e) = out.flush() {
+            writeln!(
+                &mut stderr(),
+                "Error writing {:?} for {}",
+                file_info.path().to_string_lossy(),
+                e
+            )
+            .unwrap();
+            matcher_io.set_exit_code(1);
+        }
     }
 }
 
